@@ -466,7 +466,7 @@ M('C12-run-pop-outside-lock', 'C12', CONN,
   "            with self.connection._write_lock:\n                try:\n                    while not self.interrupt and self.connection._pop_packet():\n                        num_packets += 1\n                        if num_packets >= 300:\n                            break\n                    exc_info = None\n                except IOError:\n                    exc_info = sys.exc_info()\n",
   "            try:\n                while not self.interrupt and self.connection._pop_packet():\n                    num_packets += 1\n                    if num_packets >= 300:\n                        break\n                exc_info = None\n            except IOError:\n                exc_info = sys.exc_info()\n            with self.connection._write_lock:\n",
   rule='R12.2')
-M('C12-twin-rename-lock', 'C12', CONN, "_write_lock", "_wlock", count=9, expect='silent')
+M('C12-twin-rename-lock', 'C12', CONN, "_write_lock", "_wlock", count=10, expect='silent')
 M('C12-twin-nested-with', 'C12', CONN,
   "        if force:\n            with self._write_lock:\n                self._write_packet(packet)",
   "        if force:\n            with self._write_lock:\n                with self._write_lock:\n                    self._write_packet(packet)",
@@ -628,11 +628,11 @@ M('C14-guard-isinstance-only', 'C14', CONN, "            if not exc_types or isi
 M('C14-early-appends', 'C14', CONN, "            self._exception_handlers.insert(0, (handler_func, exc_types))",
   "            self._exception_handlers.append((handler_func, exc_types))", rule='R14.7')
 M('C14-close-always', 'C14', CONN,
-  "        if (self.new_networking_thread or self.networking_thread).interrupt:\n            self.disconnect(immediate=True)",
-  "        self.disconnect(immediate=True)", rule='R14.5')
+  "            if (self.new_networking_thread\n                    or self.networking_thread).interrupt:\n                self.disconnect(immediate=True)",
+  "            self.disconnect(immediate=True)", rule='R14.5')
 M('C14-close-old-slot', 'C14', CONN,
-  "        if (self.new_networking_thread or self.networking_thread).interrupt:",
-  "        if (self.networking_thread or self.new_networking_thread).interrupt:", rule='R14.5')
+  "            if (self.new_networking_thread\n                    or self.networking_thread).interrupt:",
+  "            if (self.networking_thread\n                    or self.new_networking_thread).interrupt:", rule='R14.5')
 M('C14-run-outside-try', 'C14', CONN,
   "            self._run()\n            self.connection._handle_exit()\n        except Exception as e:",
   "            self._run()\n        except Exception as e:", rule='R14.1',
@@ -1160,4 +1160,22 @@ M('C15-status-reactor-claims-eof', 'C15', CONN,
 M('C15-twin-status-reactor-declines', 'C15', CONN,
   "    def handle_ping(self, latency_ms):\n        print('Ping: %d ms' % latency_ms)\n",
   "    def handle_ping(self, latency_ms):\n        print('Ping: %d ms' % latency_ms)\n\n    def handle_exception(self, exc, exc_info):\n        return False\n",
+  expect='silent')
+
+# D10 re-break: the dispatch closes outside the lock again
+M('C16-rebreak-close-race', 'C16', CONN,
+  "        with self._write_lock:\n            if (self.new_networking_thread\n                    or self.networking_thread).interrupt:\n                self.disconnect(immediate=True)",
+  "        if (self.new_networking_thread\n                or self.networking_thread).interrupt:\n            self.disconnect(immediate=True)",
+  rule='R16.8')
+M('C14-rebreak-close-race', 'C14', CONN,
+  "        with self._write_lock:\n            if (self.new_networking_thread\n                    or self.networking_thread).interrupt:\n                self.disconnect(immediate=True)",
+  "        if (self.new_networking_thread\n                or self.networking_thread).interrupt:\n            self.disconnect(immediate=True)",
+  rule='R14.5r')
+M('C16-close-race-two-sections', 'C16', CONN,
+  "        with self._write_lock:\n            if (self.new_networking_thread\n                    or self.networking_thread).interrupt:\n                self.disconnect(immediate=True)",
+  "        with self._write_lock:\n            stale = (self.new_networking_thread\n                     or self.networking_thread).interrupt\n        if stale:\n            with self._write_lock:\n                self.disconnect(immediate=True)",
+  rule='R16.8')
+M('C16-twin-close-under-acquire', 'C16', CONN,
+  "        with self._write_lock:\n            if (self.new_networking_thread\n                    or self.networking_thread).interrupt:\n                self.disconnect(immediate=True)",
+  "        self._write_lock.acquire()\n        try:\n            newest = self.new_networking_thread or self.networking_thread\n            if newest.interrupt:\n                self.disconnect(immediate=True)\n        finally:\n            self._write_lock.release()",
   expect='silent')
